@@ -85,7 +85,38 @@ def r2(ctx):
                 if any(same(x.args[2], sym('fill')) and x is not st for x in _find_apps(base, 'setitem')
                        if len(x.args) == 3):
                     okp = True
-    if okf and okp:
+    # the full-overlap shortcut (a view of the data, no fill) is taken exactly when the small window has the mask's
+    # shape: (small[0].stop - small[0].start, small[1].stop - small[1].start) == shape
+    shortcut = None
+    for pc, v in out.returns:
+        if full and v is full[0]:
+            conds = [c for c in pc if isinstance(c, Cmp) and c.op == '==' and (isinstance(c.lhs, Tup) or isinstance(c.rhs, Tup))]
+            if len(conds) != 1:
+                raise AnalysisError('C05.R2', 'RegionMask.cutout', 'condition of the full-overlap shortcut not recognised: '
+                                    + show(list(pc), 300))
+            c = conds[0]
+            tup, other = (c.lhs, c.rhs) if isinstance(c.lhs, Tup) else (c.rhs, c.lhs)
+            ext = []
+            for it in tup.items:
+                if not (isinstance(it, App) and it.name == 'binop:Sub' and all(isinstance(x, App) for x in it.args)
+                        and it.args[0].name == 'attr:stop' and it.args[1].name == 'attr:start'):
+                    raise AnalysisError('C05.R2', 'RegionMask.cutout', f'window extent term not recognised: {show(it, 200)}')
+                ext.append((it.args[0].args[0], it.args[1].args[0]))
+            small = full[0].args[1].args[0]           # the pair of windows; [1] is the small one
+
+            def axis(t):
+                return int(t.args[1]) if isinstance(t, App) and t.name == 'getitem' and isinstance(t.args[0], App) \
+                    and t.args[0].name == 'getitem' and same(t.args[0].args[0], small) and t.args[0].args[1] == 1 \
+                    and t.args[1] in (0, 1) else None
+            got = [(axis(a), axis(b)) for a, b in ext]
+            shortcut = got == [(0, 0), (1, 1)] and 'shape' in show(other) and 'self' in show(other)
+            if not shortcut:
+                shortcut_msg = (f'the full-overlap shortcut of cutout is taken when {show(c, 300)}: the extents compared with the '
+                                f'mask shape are (stop, start) of small-window axes {got}, not [(0, 0), (1, 1)] — a partial '
+                                'overlap can be returned as a smaller array without fill values')
+    if okf and shortcut is False:
+        ctx.bad('RegionMask.cutout', 'shortcut-condition', shortcut_msg, f.loc())
+    elif okf and okp:
         ctx.ok('RegionMask.cutout', 'inside: data[large]; partial: fill[small] = data[large]')
     else:
         ctx.bad('RegionMask.cutout', 'roles',
